@@ -111,7 +111,7 @@ func c12Mutants(rt *rapid.T, inv, other *protocoltypes.Group, acc, contact *prot
 
 func TestVerif_C12_Invitations(t *testing.T) {
 	acct := vacct.Get("C12")
-	vacct.RapidCheck(t, vacct.N(3, 120), func(rt *rapid.T) {
+	vacct.RapidCheck(t, vacct.N(3, 600), func(rt *rapid.T) {
 		w := vNewReplica(t, "W", nil)
 		defer w.close()
 		acc := w.accountGroup(t)
@@ -166,7 +166,7 @@ func TestVerif_C12_Invitations(t *testing.T) {
 // in a group joined by invitation the account acts under keys derived for that group
 func TestVerif_C12_Identity(t *testing.T) {
 	acct := vacct.Get("C12")
-	vacct.RapidCheck(t, vacct.N(4, 150), func(rt *rapid.T) {
+	vacct.RapidCheck(t, vacct.N(4, 600), func(rt *rapid.T) {
 		w := vNewReplica(t, "W", nil)
 		defer w.close()
 		acc := w.accountGroup(t)
@@ -246,7 +246,7 @@ func c13AllMeta(gc *GroupContext) ([]*protocoltypes.GroupMetadataEvent, error) {
 func TestVerif_C12_Descriptors(t *testing.T) {
 	acct := vacct.Get("C12")
 	types := c03Types()
-	vacct.RapidCheck(t, vacct.N(20, 1500), func(rt *rapid.T) {
+	vacct.RapidCheck(t, vacct.N(20, 12000), func(rt *rapid.T) {
 		ss, err := secretstore.NewInMemSecretStore(nil)
 		if err != nil {
 			rt.Fatalf("harness: %v", err)
